@@ -488,6 +488,32 @@ func init() {
 		}, sp
 	}})
 
+	// S12: With, Reset and a token event race with the start-up of Serve (each is either refused or takes effect).
+	reg(&Scenario{Name: "S12", Make: func(cfg Cfg) (func(), *Spec) {
+		sp := &Spec{Shutdown: true, Closes: 1}
+		return func() {
+			w := NewWorld(cfg)
+			sdone := make(chan struct{}, 2)
+			vsched.Go("serve", func() {
+				err := w.S.Serve(w.C)
+				vsched.Emit(Mon, fmt.Sprintf("serve.ret err=%v", err))
+				vsched.Send(sdone, struct{}{})
+			})
+			done := make(chan struct{}, 4)
+			spawn("P", done, func() { w.With("W1", w.A("1")) })
+			spawn("A", done, func() {
+				Guard("Reset", func() { w.S.Reset([]string{"t.>"}, nil) })
+				Guard("TokenEvent", func() { w.S.TokenEvent("c1", nil) })
+			})
+			join(done, 2)
+			vsched.Recv(w.Served)
+			vsched.AwaitQuiescence()
+			shutdown(w)
+			vsched.Recv(sdone)
+			vsched.AwaitQuiescence()
+		}, sp
+	}})
+
 	// S6: a straggling submitter spans a full stop/start cycle.
 	reg(&Scenario{Name: "S6", Make: func(cfg Cfg) (func(), *Spec) {
 		sp := &Spec{Shutdown: true, Closes: 1}
